@@ -178,9 +178,20 @@ func okReply(h int64, extra int) []byte {
 	return p2pv.Frame(r)
 }
 
+const nFailKinds = 8
+
 // failReply returns one of the malformed / empty reply shapes (kind 0 is "refuse")
 func failDecision(kind int) decision {
-	switch kind % 6 {
+	if forcedFailKind >= 0 {
+		kind = forcedFailKind
+	}
+	switch kind % nFailKinds {
+	case 6:
+		// a well-formed response whose first item carries nothing (nil oneof)
+		return decision{bytes: p2pv.Frame(&types.MessageGetBlocksResp{Message: &types.InvDatas{Items: []*types.InvData{{Ty: 2}}}})}
+	case 7:
+		// no Message at all
+		return decision{bytes: p2pv.Frame(&types.MessageGetBlocksResp{})}
 	case 0:
 		return decision{refuse: true}
 	case 1:
@@ -264,6 +275,12 @@ func (s *scripted) observe(w int, wk *worker) string {
 			posts := s.takeSync()
 			if len(posts) != 1 {
 				return fmt.Sprintf("delivered-%d-blocks", len(posts))
+			}
+			if posts[0].Block == nil {
+				pred("C35|downloadBlock|nil-block-handed-to-blockchain",
+					fmt.Sprintf("requested height %d: the reply carried no block, downloadBlock returned success and posted a nil block (asked %v)", wk.height, wk.asked))
+				wk.result = "delivered-nil-block"
+				return wk.result
 			}
 			h := posts[0].Block.Height
 			if h != wk.height {
@@ -387,6 +404,15 @@ func cloneFact() string {
 	return "0"
 }
 
+// forcedFailKind >= 0 makes every failing reply of a scripted scenario use that malformed shape
+var forcedFailKind = -1
+
+func runScriptedKinds(e *env, r *gen.Rand, npeers int, heights []int64, beh behaviour, kind int) {
+	forcedFailKind = kind
+	defer func() { forcedFailKind = -1 }()
+	runScripted(e, r, npeers, heights, beh, func(f []int) int { return 0 }, 0, nil)
+}
+
 // beh: what peer p does with a request for height h: -1 fail, otherwise the height of the block it returns
 type behaviour func(p int, h int64) int64
 
@@ -474,7 +500,7 @@ func runScripted(e *env, r *gen.Rand, npeers int, heights []int64, beh behaviour
 		got := beh(p, wk.height)
 		if got < 0 {
 			wk.failed[p] = true
-			s.op(fmt.Sprintf("reply %d fail", w), s.reply(w, failDecision(r.Intn(6))))
+			s.op(fmt.Sprintf("reply %d fail", w), s.reply(w, failDecision(r.Intn(nFailKinds))))
 		} else {
 			if got != wk.height {
 				wk.failed[p] = true // if the code rejects the block, p has failed this height
@@ -515,7 +541,7 @@ func runScripted(e *env, r *gen.Rand, npeers int, heights []int64, beh behaviour
 			got := beh(p, wk.height)
 			if got < 0 {
 				wk.failed[p] = true
-				s2.op("reply 0 fail", s2.reply(0, failDecision(r.Intn(6))))
+				s2.op("reply 0 fail", s2.reply(0, failDecision(r.Intn(nFailKinds))))
 			} else {
 				if got != wk.height {
 					wk.failed[p] = true
@@ -579,7 +605,7 @@ func runStress(e *env, r *gen.Rand, npeers int, start, end int64, beh behaviour,
 		}
 		got := beh(p, h)
 		if got < 0 {
-			k := int((seed+uint64(p)*31+uint64(h)*7)%5) + 1 // every failure shape except refuse
+			k := int((seed+uint64(p)*31+uint64(h)*7)%(nFailKinds-1)) + 1 // every failure shape except refuse
 			return failDecision(k)
 		}
 		return decision{bytes: okReply(got, int(uint64(h)%2))}
@@ -624,6 +650,10 @@ func runStress(e *env, r *gen.Rand, npeers int, start, end int64, beh behaviour,
 	e.w.SyncLow("blockchain")
 	got := map[int64]bool{}
 	for _, p := range e.w.TakePosts() {
+		if p.Block == nil {
+			pred("C35|downloadBlock|nil-block-handed-to-blockchain", fmt.Sprintf("concurrent run %d..%d: a nil block was posted", start, end))
+			continue
+		}
 		got[p.Block.Height] = true
 	}
 	var missing []int64
@@ -683,6 +713,16 @@ func main() {
 	runScripted(e, r, 1, []int64{7}, func(p int, h int64) int64 { return h + 100 }, func(f []int) int { return 0 }, 0, nil)
 	// witness 3: silent peer
 	runScripted(e, r, 2, []int64{4}, func(p int, h int64) int64 { return h }, func(f []int) int { return 0 }, 1, nil)
+	// height 0 with every malformed reply shape in turn from the first peers, the last peer serves
+	for k := 0; k < nFailKinds; k++ {
+		kk := k
+		runScriptedKinds(e, r, 2, []int64{0}, func(p int, h int64) int64 {
+			if p == 0 {
+				return -1
+			}
+			return h
+		}, kk)
+	}
 	// eight peers that all fail: eight tries, then "no peer" (well below the limit of 50 tries)
 	runScripted(e, r, 8, []int64{3}, func(p int, h int64) int64 { return -1 }, func(f []int) int { return 0 }, 0, nil)
 	n := gen.Scale(150, 4000)
@@ -690,7 +730,10 @@ func main() {
 		npeers := 1 + r.Intn(5)
 		nh := 1 + r.Intn(5)
 		var hs []int64
-		base := int64(1 + r.Intn(50))
+		base := int64(r.Intn(50))
+		if r.Chance(1, 3) {
+			base = 0 // height 0 is a height like any other
+		}
 		for j := 0; j < nh; j++ {
 			hs = append(hs, base+int64(j))
 		}
@@ -726,7 +769,10 @@ func main() {
 	}
 	for i := 0; i < gen.Scale(25, 400); i++ {
 		npeers := 1 + r.Intn(6)
-		start := int64(1 + r.Intn(100))
+		start := int64(r.Intn(100))
+		if r.Chance(1, 3) {
+			start = 0
+		}
 		end := start + int64(r.Intn(30))
 		seed := r.U64()
 		bad := r.Intn(5)
@@ -799,7 +845,7 @@ func replay(e *env, r *gen.Rand, lines []string) {
 			wk := s.ws[w]
 			if f[2] == "fail" {
 				wk.failed[wk.pending.peer] = true
-				s.op(l, s.reply(w, failDecision(1+r.Intn(5))))
+				s.op(l, s.reply(w, failDecision(1+r.Intn(nFailKinds-1))))
 			} else {
 				var h int64
 				fmt.Sscan(f[3], &h)
